@@ -5,7 +5,7 @@ use refmodel::spec;
 use refmodel::sets::Amt;
 use refmodel::{Obs, ZNum};
 use vengine::{bo, oord, ord, same, v};
-use vengine::{op, Aux, Op, ShiftRhs, Subj};
+use vengine::{op, oph, Aux, Op, ShiftRhs, Subj};
 
 /// six forms of a binary operator against the inherent method
 macro_rules! binop {
@@ -71,7 +71,7 @@ macro_rules! bnum_shift {
 /// two consecutive assign operations against the by-value fold; aux = 16 * first + second
 macro_rules! assign_seq {
     ($T:ty) => {{
-        let t: Vec<Op<$T, Z>> = vec![op!("assign_sequence_depth2", 3, Aux::Custom, spec::always_true, |r, x| {
+        let t: Vec<Op<$T, Z>> = vec![oph!("assign_sequence_depth2", 3, Aux::Custom, spec::always_true, |r, x| {
             let apply_assign = |a: &mut $T, k: u64, b: $T, s: u32| match k {
                 0 => *a += b,
                 1 => *a -= b,
